@@ -163,6 +163,15 @@ def scenarios(tier, rng):
                                            {"op": "solve", "k": 3}, {"op": "wait"}, {"op": "list", "dir": "@A"}]},
                                   {"ops": [{"op": "list", "dir": "@A"}, restore_op(full), {"op": "solve", "k": BIG},
                                            {"op": "wait"}, {"op": "list", "dir": "@A"}]}]))
+    # a checkpoint the USER saved under a label of their own (save(300) at iteration 4): restoring it must give back the
+    # iteration the solver held, not the label (the periodic measure with gamma < 1 depends on the absolute iteration)
+    for kind, pname in (("PVI", "forest12"), ("VI", "forest"), ("RVI", "forest")):
+        pspec, full = P[pname]
+        out.append(base_scenario(f"{kind}-{pname}-user-labelled-save", kind, pname, pspec, full, 2, 3, False,
+                                 [{"ops": [{"op": "new"}, {"op": "solve", "k": 4}, {"op": "save_as", "label": 300}, {"op": "wait"},
+                                           {"op": "list", "dir": "@A"}]},
+                                  {"ops": [{"op": "list", "dir": "@A"}, restore_op(full), {"op": "solve", "k": BIG},
+                                           {"op": "wait"}]}]))
     # error paths
     pspec, full = P["tabular"]
     out.append(base_scenario("VI-tabular-restore-without-config", "VI", "tabular", pspec, False, 1, 2, False,
